@@ -161,7 +161,7 @@ def _manager_connect(ctx, R, roles, T):
         R.fail("HS-loop", q + "|loops", "connect() must contain exactly one loop over the keys, found %d for-loops" % len(iters), loc)
         return
     it = iters[0]
-    inloop = set(loop_nodes(g, it))
+    inloop = set(n for n in g.nodes if n is it or it in n.loops)     # lexical membership: arms that return/raise from inside the loop count as loop code here
     itt = T.term(f, it, it.ast.iter)
     R.check(itt == ("p", "rsa_keys"), "HS-loop", q + "|iterates-keys", "the loop iterates the rsa_keys parameter itself (in the caller's order, each key once)",
             "the loop iterates %s, not the rsa_keys parameter in order" % show(itt), f.loc(it.ast))
